@@ -2,10 +2,15 @@ use super::{
     edge_traversal::EdgeTraversal, search_error::SearchError, search_tree_branch::SearchTreeBranch,
 };
 use crate::model::network::{edge_id::EdgeId, graph::Graph, vertex_id::VertexId};
+#[cfg(not(all(kani, feature = "verif-models")))]
 use std::{
     collections::{HashMap, HashSet},
     sync::Arc,
 };
+#[cfg(all(kani, feature = "verif-models"))]
+use std::sync::Arc;
+#[cfg(all(kani, feature = "verif-models"))]
+use crate::util::verif_collections::{HashMap, HashSet};
 
 /// reconstructs a path from a minimum shortest path tree for some source and target vertex
 /// directionality travels up from target to source, toward root of the tree, in both the forward
